@@ -527,6 +527,81 @@ func c20SyncBody(st *c20SyncState, first int, slots int) {
 	}
 }
 
+// c20SlotDataPhases: stretches of slots as the sync committee messenger sees them.  In a normal slot the controller
+// has the messenger message and, on the slot's head event, tidy the per-slot data kept for inclusion checks; in a
+// stalled slot (beacon node resyncing, event stream dropped, blocks missed) there is no on-time head event.
+var c20SlotDataPhases = []struct {
+	name    string
+	slots   int
+	stalled bool
+}{{"normal-10", 10, false}, {"normal-40", 40, false}, {"stall-40", 40, true}, {"stall-120", 120, true}, {"stall-260", 260, true}}
+
+func c20SlotDataBody(st *c20SyncState, first int, depth int) {
+	*st = c20SyncState{}
+	env := &c20SyncEnv{sigSel: c20FindSig(8, true), sigNot: c20FindSig(8, false)}
+	sp := &specProvider{m: baseSpec(12*time.Second, 32)}
+	ct := newChainTime(0, 12*time.Second, 32)
+	accts := &accountsTable{byIndex: map[phase0.ValidatorIndex]*hAccount{1: newAccount("W", "v1", 1)}}
+	ctx := context.Background()
+	agg, err := standardsyncaggregator.New(ctx, standardsyncaggregator.WithLogLevel(zerolog.Disabled), standardsyncaggregator.WithMonitor(nullmetrics.New()), standardsyncaggregator.WithSpecProvider(sp),
+		standardsyncaggregator.WithBeaconBlockRootProvider(env), standardsyncaggregator.WithContributionAndProofSigner(env), standardsyncaggregator.WithValidatingAccountsProvider(accts),
+		standardsyncaggregator.WithSyncCommitteeContributionProvider(env), standardsyncaggregator.WithSyncCommitteeContributionsSubmitter(env), standardsyncaggregator.WithChainTime(ct))
+	must(err)
+	msgr, err := standardsyncmessenger.New(ctx, standardsyncmessenger.WithLogLevel(zerolog.Disabled), standardsyncmessenger.WithMonitor(nullmetrics.New()), standardsyncmessenger.WithProcessConcurrency(2),
+		standardsyncmessenger.WithChainTimeService(ct), standardsyncmessenger.WithSyncCommitteeAggregator(agg), standardsyncmessenger.WithSpecProvider(sp), standardsyncmessenger.WithBeaconBlockRootProvider(env),
+		standardsyncmessenger.WithSyncCommitteeMessagesSubmitter(env), standardsyncmessenger.WithSyncCommitteeSubscriptionsSubmitter(env), standardsyncmessenger.WithValidatingAccountsProvider(accts),
+		standardsyncmessenger.WithSyncCommitteeSelectionSigner(env), standardsyncmessenger.WithSyncCommitteeRootSigner(env))
+	must(err)
+	slot := phase0.Slot(200)
+	for step := 0; step < depth; step++ {
+		k := first
+		if step > 0 {
+			k = mc.Choose(len(c20SlotDataPhases)+1) - 1
+			if k < 0 {
+				break
+			}
+		}
+		ph := c20SlotDataPhases[k]
+		st.pattern = append(st.pattern, ph.name)
+		for i := 0; i < ph.slots; i++ {
+			slot++
+			mc.Sleep(int64(time.Duration(slot)*12*time.Second) - mc.Now())
+			duty := synccommitteemessenger.NewDuty(slot, map[phase0.ValidatorIndex][]phase0.CommitteeIndex{1: {3}})
+			duty.SetAccount(1, accts.byIndex[1])
+			if err := msgr.Prepare(ctx, duty); err != nil {
+				panic(err)
+			}
+			if _, err := msgr.Message(ctx, duty); err != nil {
+				panic(err)
+			}
+			if _, ok := msgr.GetDataUsedForSlot(slot); !ok {
+				panic("harness: messaging did not record the slot's data")
+			}
+			if ph.stalled {
+				continue
+			}
+			// the slot's on-time head event, as the controller handles it
+			msgr.RemoveHistoricDataUsedForSlotVerification(slot)
+			kept := msgr.VerifC20SlotDataRecordSlots()
+			if len(kept) > st.maxData {
+				st.maxData = len(kept)
+			}
+			// Tidying starts once more than 100 slots are held and then keeps the last 32: after a head event has
+			// been handled no more than 100 slots are held, however long the node was away before
+			if len(kept) > 100 && st.fail == "" {
+				oldest := slot
+				for _, x := range kept {
+					if x < oldest {
+						oldest = x
+					}
+				}
+				st.fail = fmt.Sprintf("after the head event of slot %d the messenger holds the data of %d slots (oldest: slot %d) for inclusion checks (%s)", slot, len(kept), oldest, strings.Join(st.pattern, " "))
+				st.key = "sync-slot-data-accumulates"
+			}
+		}
+	}
+}
+
 // ---- units --------------------------------------------------------------------------------------
 
 func c20Units(tier string) []hx.Unit {
@@ -656,6 +731,27 @@ func c20Units(tier string) []hx.Unit {
 		u.Body = func() { c20SyncBody(st, first, slots) }
 		u.Check = func(r *mc.Result) mc.Verdict {
 			v := mc.Verdict{Outcome: fmt.Sprintf("sync maxroots=%d", st.maxRoot), Nontrivial: true, Sample: "sync slots: " + strings.Join(st.pattern, " ")}
+			if r.Panic != "" {
+				v.Violation, v.Key = v.Sample+": panic: "+firstLine(r.Panic), "C20/sync/panic/"+panicSite(r.Panic)
+			} else if st.fail != "" {
+				v.Violation, v.Key = st.fail, "C20/sync/"+st.key
+			}
+			return v
+		}
+		units = append(units, u)
+	}
+	// sync: the per-slot data kept for inclusion checks, over stretches of normal and stalled slots
+	for first := range c20SlotDataPhases {
+		first := first
+		st := &c20SyncState{}
+		depth := 3
+		if tier == "thorough" {
+			depth = 4
+		}
+		u := hx.Unit{Name: "C20/sync-slot-data/first-" + c20SlotDataPhases[first].name, Cfg: mc.Config{Fixed: true, Horizon: int64(10 * time.Hour)}}
+		u.Body = func() { c20SlotDataBody(st, first, depth) }
+		u.Check = func(r *mc.Result) mc.Verdict {
+			v := mc.Verdict{Outcome: fmt.Sprintf("sync slot data max=%d", st.maxData/20*20), Nontrivial: len(st.pattern) > 1, Sample: "slot stretches: " + strings.Join(st.pattern, " ")}
 			if r.Panic != "" {
 				v.Violation, v.Key = v.Sample+": panic: "+firstLine(r.Panic), "C20/sync/panic/"+panicSite(r.Panic)
 			} else if st.fail != "" {
@@ -838,7 +934,7 @@ func init() {
 		ID:    "C20",
 		Title: "Vouch's memory and goroutines stay bounded, and shutdown accounting is exact",
 		Rule: "ctrl: the real controller (fast track off / on) + scheduler run for 4 (thorough 6) epochs from 2 start instants with 6 attester duty-table pairs (dense / sparse, reorg that drops or moves duties) and an attester that returns at once, plus 5 pairs with an attester that takes 14 s (still at work at the next slot's head event), x position (any of 8 slots, 1 s or 6 s into it), kind of the reorg event, a head event every slot (or every slot but the first of each epoch), the default schedule; thorough: plus two-epoch runs for all reorg pairs under every schedule with one deviation while the reorg event is handled; at +2 s and at the end of every slot: job names, pending-attestation marks (exactly the slots with an attestation job listed or attestations in flight), subscription-information epochs inside a fixed window; " +
-			"attested: the real attester over every 6-epoch (thorough 8) pattern of {attests, data fetch fails, no duty}; sync: the real sync messenger + aggregator over every 8-slot (thorough 12) pattern of {selected as aggregator, not selected, beacon node gives no head root}; a slot that records a root leaves no root outside the window and at most 4 are ever retained; " +
+			"attested: the real attester over every 6-epoch (thorough 8) pattern of {attests, data fetch fails, no duty}; sync: the real sync messenger + aggregator over every 8-slot (thorough 12) pattern of {selected as aggregator, not selected, beacon node gives no head root}; a slot that records a root leaves no root outside the window and at most 4 are ever retained; the messenger's per-slot data for inclusion checks over every sequence of 3 (thorough 4) stretches out of {10 / 40 normal slots, 40 / 120 / 260 slots without on-time head event}: after a handled head event at most 100 slots are held; " +
 			"leak: each `first` / best / majority strategy with three nodes x {answer at 0 s / 2 s, never, late} x {valid, error}, unblinding with three relays, the deadline auction with three relays; after all timeouts no goroutine started by vouch may be blocked; deviation-bounded schedules; " +
 			"ctrl-due-job: the controller's scheduling of an epoch run six seconds into a slot that has a duty (the job is due at once), under every schedule with one preemption (thorough two) at that instant; non-trivial = a reorg happened / pending marks were observed / any attested, sync or leak case",
 		Assumptions: []string{
